@@ -128,6 +128,8 @@ func c03Profiles(tier string) []Profile {
 		}), Rule: "one history [Set(a) Flush Set(b, 9000-byte value) Flush] x every one of the ~9200 byte-granular crash points: every length 0..9100 of uncommitted bytes after the last complete root record (a backward scan that proceeds in chunks of any size up to 8 KiB meets every alignment of the end marker)"},
 		{Name: "crash-framed", Exec: c03ExecPre(d-1, false, false, true, false, nil, harness.CBFramed),
 			Rule: fmt.Sprintf("the crash profile (histories of length <= %d, every byte-granular crash point) with a BeforeItemWrite / AfterItemRead pair installed that stores every value with a two-byte trailer (length, checksum) and verifies and strips it on read - the documented use of the pair (checksums, compression): what is stored differs in length from what is in memory, and recovery must still give the last completed Flush", d-1)},
+		{Name: "crash-valframed", Exec: c03ExecPre(d-1, false, false, true, false, nil, harness.CBValFramed),
+			Rule: fmt.Sprintf("the crash profile (histories of length <= %d, every byte-granular crash point) with the ItemValLength / ItemValWrite / ItemValRead triple installed (stored value = value + two-byte trailer written by a separate file call): the append position must advance by the stored length, and recovery must still give the last completed Flush", d-1)},
 		{Name: "junk", Exec: c03Exec(dj, false, true, false, false),
 			Rule: fmt.Sprintf("every history of length <= %d x crash images at write boundaries and cuts {1, n/2, n-1} x every adversarial junk tail and every proper prefix of it appended after the image", dj)},
 	}...)
